@@ -255,6 +255,8 @@ func (cc *ClientConn) newStream(
 	err = rw.Write(ctx, &rpc)
 	if err != nil {
 		log.Error().Err(err).Msg("NewStream: failed to open")
+		// nobody will ever use or tear down this stream: release its registration
+		teardown()
 		return nil, err
 	}
 
